@@ -27,6 +27,8 @@ PREFIX = "/simfs"
 
 _real_open = io.open
 _real_getcwd = os.getcwd
+_real_stat = os.stat
+_real_lstat = os.lstat
 
 ACTIVE = None  # the SimFS of the run in progress
 _installed = False
@@ -45,11 +47,11 @@ def classify(path: str) -> str:
 class _Mem(io.BytesIO):
     """Block layer of one open simulated file."""
 
-    def __init__(self, fs, path, data, writable, fault=None):
+    def __init__(self, fs, path, data, writable, fault=None, name=None):
         super().__init__(data if not writable else b"")
         self._fs, self._path, self._writable, self._fault = fs, path, writable, fault
         self._written = 0
-        self.name = path
+        self.name = name if name is not None else path  # like a real file: the name as given to open()
         self._closed_once = False
 
     def write(self, b):
@@ -177,16 +179,35 @@ class SimFS:
             wf = self._match_fault("write", cls, full)
             if "w" in mode:
                 self.files[full] = b""  # truncation happens at open, as on a real file system
-            raw = _Mem(self, full, b"", True, wf)
+            raw = _Mem(self, full, b"", True, wf, name=path)
         else:
             if full not in self.files:
                 raise FileNotFoundError(errno.ENOENT, os.strerror(errno.ENOENT), full)
             rf = self._match_fault("read", cls, full)
-            raw = _Mem(self, full, self.files[full], False, rf)
+            raw = _Mem(self, full, self.files[full], False, rf, name=path)
         self.open_handles += 1
         if "b" in mode:
             return raw
         return io.TextIOWrapper(raw, encoding=encoding or "utf-8", errors=errors, newline=newline, write_through=True)
+
+    def stat(self, path, real, **kw):
+        """os.stat / os.lstat seam (os.path.exists / isfile / isdir go through it)."""
+        if isinstance(path, int):
+            return real(path, **kw)
+        p = os.fspath(path)
+        if isinstance(p, bytes):
+            p = p.decode()
+        full = os.path.normpath(p if os.path.isabs(p) else os.path.join(self.cwd, p))
+        if classify(full) != "simfs":
+            return real(path, **kw)
+        self.event("stat", full)
+        import stat as st
+
+        if full in self.files:
+            return os.stat_result((st.S_IFREG | 0o644, 1, 1, 1, 0, 0, len(self.files[full]), 0, 0, 0))
+        if full in self.dirs:
+            return os.stat_result((st.S_IFDIR | 0o755, 1, 1, 2, 0, 0, 0, 0, 0, 0))
+        raise FileNotFoundError(errno.ENOENT, os.strerror(errno.ENOENT), p)
 
     def opens(self, cls=None):
         return [e for e in self.history if e[1] == "open" and (cls is None or e[4] == cls)]
@@ -206,6 +227,20 @@ def _dispatch_getcwd():
     return fs.cwd
 
 
+def _dispatch_stat(path, *a, **kw):
+    fs = ACTIVE
+    if fs is None or a:
+        return _real_stat(path, *a, **kw)
+    return fs.stat(path, _real_stat, **kw)
+
+
+def _dispatch_lstat(path, *a, **kw):
+    fs = ACTIVE
+    if fs is None or a:
+        return _real_lstat(path, *a, **kw)
+    return fs.stat(path, _real_lstat, **kw)
+
+
 def install():
     """Install the dispatcher at every binding the library reads files through."""
     global _installed
@@ -215,6 +250,8 @@ def install():
     builtins.open = _dispatch_open
     io.open = _dispatch_open
     os.getcwd = _dispatch_getcwd
+    os.stat = _dispatch_stat
+    os.lstat = _dispatch_lstat
     import mappyfile.parser as mp
 
     if getattr(mp, "open", None) is not None:
